@@ -25,7 +25,7 @@ def evaluate(ck, data, rules, docg):
         if o["status"] == "ok":
             ok = o.get("run_c02_eq") or (removers_fired and o.get("run_c02_sub"))
             if ok is False:
-                ck.violation("run-changes-comments:" + ",".join(sorted({r["rule"] for r in o["records"] if not r.get("c02", True)})[:3]), "%s: the comments after the run are not those before it" % T.tag(o), T.rep(o, oracle="run"))
+                ck.violation("run-changes-comments:" + (",".join(sorted({r["rule"] for r in o["records"] if not r.get("c02", True)})[:3]) or ",".join(sorted({r["rule"] for r in o["records"] if not r.get("wf", True)})[:3]) or "@" + o["rel"]), "%s: the comments after the run are not those before it" % T.tag(o), T.rep(o, oracle="run"))
     ck.sample({"edits_keeping_comments": n_same, "edits_by_allowed_removers": n_removed})
     return {"edits_keeping_comments": n_same, "edits_by_allowed_removers": n_removed}
 
